@@ -17,12 +17,16 @@ CLAIM = dict(
          "S-subsystems coincide (homogeneous mean-field, homogeneous pairwise, compact pairwise); dtheta/dt=0 in _dEBCM_ <=> theta is a fixed point "
          "of the map iterated by Attack_rate_cts_time, where 1-psihat(theta)=R/N; the theta-sequence of EBCM_discrete IS the iteration of "
          "Attack_rate_discrete so Attack_rate_discrete(n)=1-S(tmin+n)/N exactly, R(t+1)=R(t)+I(t), S+I+R=N.  Translation tied by point evaluation "
-         "(>=200 random dyadic points per function).  VALIDATED NUMERICALLY ONLY (oracles on the real entry points): SIR_pair_based_pure_IC = exact "
-         "master equation on every tree up to the size bound (all seeds, edge/node weights); convergence of EBCM/EBCM_discrete to the Attack_rate values; "
-         "tau=0 and gamma=0 limits of the 2-D and node-level systems and of every graph entry point.",
+         "(>=200 random dyadic points per function).  ALSO PROVED, over hand-written models of the node-level and 2-D right-hand sides (coq/Model/Rhs2D.v; on every run translate/rhs2d2v.py, fail-closed, regenerates coq/Gen/Rhs2.v from the source and the theorems *_generated_* re-prove generated definition = model; model and generated definition are also point-evaluated against the code, >=200 points per function): tau=0 => dX_i=0, dY_i=-gamma_i*Y_i componentwise for individual-based and pair-based (any graph, any rate "
+         "functions), dS_k=0 / +gamma*I_k and dI_k=-gamma*I_k for heterogeneous pairwise, and for effective degree the totals S'=0 (SIR) / +gamma*I (SIS, on the feasible region), "
+         "I'=-gamma*I; gamma=0 => the SIS system and the S-part of the SIR system have the same right-hand side for all four families (heterogeneous pairwise: where no "
+         "zero-denominator guard fires); pair_based_tree_exact_partial: on the single edge the pair-based SIR system is closed (closure sums empty) and equals the marginals of the "
+         "9-state master equation for every probability vector, with direction-dependent transmission and node-dependent recovery rates.  VALIDATED NUMERICALLY ONLY (oracles on "
+         "the real entry points): SIR_pair_based_pure_IC = exact master equation on every tree up to the size bound (all seeds, edge/node weights); convergence of "
+         "EBCM/EBCM_discrete to the Attack_rate values; the tau=0 and gamma=0 CURVES of every graph entry point.",
     design='DESIGN.md section 4, C08; section 2.4(b) (rhs2v)',
-    technique='Coq proof over translator-generated model + point-evaluation correspondence + numerical oracles (validation) for the cited clauses',
-    note="Cited, not proved: exactness of the pair closure on trees (Sharkey et al. 2015); Picard-Lindeloef uniqueness for lifting vector-field identities to "
+    technique='Coq proof over translator-generated model and hand-written model + point-evaluation correspondence + numerical oracles (validation) for the cited clauses',
+    note="Cited, not proved: exactness of the pair closure on trees with more than one edge (Sharkey et al. 2015); Picard-Lindeloef uniqueness for lifting vector-field identities to "
          "curves; convergence to the rest points.  'S constant when tau=0' is read as S constant for SIR models and S+I constant for SIS models (in SIS "
          "recovered nodes become susceptible again, dS=+gamma*I is what the equations say and what is proved).")
 
@@ -348,7 +352,12 @@ def O_poly(c):
     return L.poly([F(x) for x in c])
 
 
-CASES = {'tree': case_tree, 'attack_discrete': case_attack_discrete, 'attack_limit': case_attack_limit, 'attack_general': case_attack_general,
+def _rhs2_case(EoN, p):
+    from . import rhs2_spec as S2
+    return S2.case_spec(EoN, p)
+
+
+CASES = {'rhs2_spec': _rhs2_case, 'tree': case_tree, 'attack_discrete': case_attack_discrete, 'attack_limit': case_attack_limit, 'attack_general': case_attack_general,
          'attack_from_graph': case_attack_from_graph, 'tau0': case_tau0, 'gamma0': case_gamma0, 'rhs_spec': case_rhs_spec}
 
 
@@ -542,11 +551,13 @@ def run(run, tier):
     except L.RhsRefused as e:
         broken.append(('translator', 'translate/rhs2v.py refuses the current EoN/analytic.py: %s' % e))
     # 2. theorems over the generated file
-    props = C.check_props('C08') if table else {'ok': False, 'theorems': [], 'axioms': {}, 'log': 'translator refused'}
-    if table and not props['ok']:
+    from . import rhs2_spec as S2
+    regen2 = S2.regen_phase()
+    props = (C.check_props('C08') if regen2 is None else S2.REFUSED_PROPS(regen2)) if table else {'ok': False, 'theorems': [], 'axioms': {}, 'log': 'translator refused'}
+    if table and not props['ok'] and regen2 is None:
         m = None
         import re
-        mm = re.findall(r'File "\./(Proofs/[A-Za-z]+\.v|Props/[A-Za-z0-9]+\.v|Model/[A-Za-z]+\.v)", line (\d+)', props.get('log', ''))
+        mm = re.findall(r'File "\./((?:Proofs|Props|Model|Gen)/[A-Za-z0-9]+\.v)", line (\d+)', props.get('log', ''))
         where = ''
         if mm:
             f, ln = mm[-1]
@@ -586,6 +597,9 @@ def run(run, tier):
                 broken.append(('wrapper-tie', 'Model/Attack.v disagrees with %s on %s: model=%s python=%s (%d of %d cases)' % (m[0], m[1], m[2], m[3], len(wt['mism']), wt['n'])))
     # 4. numerical version of each theorem on the Python right-hand sides + oracles on the entry points
     found = 0; skipped = 0; stats = {}
+    from . import rhs2_spec as S2
+    blk = S2.check_block(run, EoN, 'C08', tier, report, regen2)           # 2-D / node-level systems: own RNG stream, does not shift the cases below
+    broken += blk['broken']; found += blk['found']; n_eval += blk['n_eval']; n_distinct += blk['n_distinct']; samples += blk['samples']; dist.update(blk['dist'])
     sp = spec_points(rng, 40 if thorough else 8)
     for p in sp:
         n_eval += 1
@@ -631,12 +645,16 @@ def run(run, tier):
                      'every single-seed placement (shuffled string/tuple labels), edge+node weights, one initially recovered node; Attack_rate_discrete(n) vs EBCM_discrete row n; '
                      'Attack_rate_* vs t->infinity of EBCM/EBCM_discrete; tau=0 and gamma=0 on all %d graph entry points (rho form) on heterogeneous and regular graphs; each theorem of '
                      'Props/C08.v re-evaluated numerically on the Python right-hand sides.  Tolerance 1e-4*N for curves, rel 1e-9 for point values.  Non-trivial = not skipped for '
-                     'non-convergence.' % (6 if thorough else 5, len(O.GRAPH_SIR + O.GRAPH_SIS)),
+                     'non-convergence.  ' % (6 if thorough else 5, len(O.GRAPH_SIR + O.GRAPH_SIS)) + S2.RULE,
                      samples, {'distribution': dict(dist, oracle_cases=stats, skipped_not_converged=skipped),
-                               'validated_numerically_only': ['pair-based tree exactness (cited: Sharkey et al. 2015)', 't->infinity limits (convergence)',
-                                                              'tau=0 / gamma=0 for heterogeneous_pairwise, effective_degree, individual_based, pair_based, pref_mix, heterogeneous_meanfield gamma=0'],
+                               'validated_numerically_only': ['pair-based tree exactness beyond the single edge (cited: Sharkey et al. 2015)', 't->infinity limits (convergence)',
+                                                              'tau=0 / gamma=0 for pref_mix, heterogeneous_meanfield gamma=0; the curves of every graph entry point at tau=0 / gamma=0'],
+                               'proved_over_hand_written_model': ['tau=0 and gamma=0 right-hand-side identities of individual_based, pair_based, heterogeneous_pairwise, effective_degree (SIS and SIR)',
+                                                                  'pair_based_tree_exact_partial: single edge = marginals of the 9-state master equation, closure sums empty'],
+                               'hand_written_model': 'coq/Model/Rhs2D.v (component rhs2): proved equal to the definitions generated from the source (Props: *_generated_*), both tied by point evaluation',
                                'cited': ['Picard-Lindeloef uniqueness (vector-field identity => curves coincide)', 'I\' = -gamma I => I = I0 exp(-gamma t)'],
-                               'translator': 'translate/rhs2v.py (fail-closed); generated file coq/Gen/Rhs.v'})
-    run.assumptions += ['numpy elementwise/broadcast/slice/dot semantics and scipy.ndimage.shift(a,-1) as modelled in Model/Vec.v (tied by point evaluation)',
+                               'translator': 'translate/rhs2v.py (fail-closed); generated file coq/Gen/Rhs.v; translate/rhs2d2v.py (fail-closed); generated file coq/Gen/Rhs2.v'})
+    run.assumptions += ['Model/Rhs2D.v is a hand-written model of the 2-D / node-level right-hand sides; its precondition is index_of_node = enumerate(nodelist) over a simple graph (what every caller in analytic.py builds)',
+                        'numpy elementwise/broadcast/slice/dot semantics and scipy.ndimage.shift(a,-1) as modelled in Model/Vec.v (tied by point evaluation)',
                         'scipy.integrate.odeint returns the ODE solution on the grid to tolerance',
                         'division by zero is outside the translated fragment (theorems carry non-zero hypotheses where they divide)']
